@@ -193,10 +193,16 @@ fn by_srv_share_tol(k: &str, a: &Flat, b: &Flat, sc: &Scales, mag: f64) -> Optio
         }
         [top, "we", which, srv] if (*top == "bal" || *top == "m2") && (*which == "a_by_srv" || *which == "b_by_srv") => {
             let mut t = 0.0;
+            let mut seen = 0;
             for c in ALL_CARS.iter() {
                 if a.contains_key(&format!("cr.{}.used.epus_an", c.name())) || b.contains_key(&format!("cr.{}.used.epus_an", c.name())) {
                     t += share(c.name(), srv)? * tol(sc.s_weighted(Some(*c)), sc.n);
+                    seen += 1;
                 }
+            }
+            // (views that were filtered down to the by-service entries carry no carrier to read the shares from)
+            if seen == 0 {
+                return None;
             }
             if *top == "m2" {
                 t /= sc.area.max(1e-12);
